@@ -134,6 +134,23 @@ pub fn exercise(tools: &Tools, sub: &str, x: &[u8], rank: u64, case: &dyn Fn() -
                         }
                     }
                 });
+                // the iterator protocol beyond next(): size_hint between items, and the adaptors that consult it
+                guard!("files() as an Iterator (size_hint, collect)", {
+                    if let Ok(mut it) = p.files() {
+                        let mut n = 0usize;
+                        loop {
+                            let _ = it.size_hint();
+                            match it.next() {
+                                Some(Ok(_)) if n < 100_000 => n += 1,
+                                _ => break,
+                            }
+                        }
+                        let _ = it.size_hint();
+                    }
+                    if let Ok(it) = p.files() {
+                        let _: Vec<_> = it.take(100_000).collect();
+                    }
+                });
             } else {
                 acc.count("payload iteration skipped (compressed or unknown compressor)");
             }
@@ -288,6 +305,14 @@ fn seeds(ctx: &Ctx, env: &Env) -> Vec<(String, Vec<u8>)> {
         p.main.push((1005, Val::i18n(&["Beschreibung", "description", "description fr"])));
         p.main.push((1016, Val::i18n(&["Gruppe", "group", "groupe"])));
         v.push(("hand-i18n".to_string(), with_digests(&p, &DigestPlan { md5: D::Correct, sha1: D::Correct, sha256: D::Correct, payload: D::Correct, algo: 8 }).0));
+        // and one whose table starts with "C" and names the German locale second
+        let mut q = p.clone();
+        q.main.retain(|(t, _)| ![100u32, 1004, 1005, 1016].contains(t));
+        q.main.push((100, Val::strs(&["C", "de"])));
+        q.main.push((1004, Val::i18n(&["summary", "Zusammenfassung"])));
+        q.main.push((1005, Val::i18n(&["description", "Beschreibung"])));
+        q.main.push((1016, Val::i18n(&["group", "Gruppe"])));
+        v.push(("hand-i18n-C-first".to_string(), with_digests(&q, &DigestPlan { md5: D::Correct, sha1: D::Correct, sha256: D::Correct, payload: D::Correct, algo: 8 }).0));
     }
     for rel in ["test_assets/fixture_packages/rpm-empty-0-0.x86_64.rpm", "test_assets/fixture_packages/rpm-empty-0-0.src.rpm"] {
         v.push((rel.rsplit('/').next().unwrap().to_string(), std::fs::read(ctx.asset(rel)).unwrap_or_else(|e| crate::ctx::machinery(&format!("{}: {}", rel, e)))));
@@ -563,7 +588,7 @@ pub fn sweeps(ctx: &Ctx) -> Vec<Sweep> {
     let seeds = seeds(ctx, &env);
     for (name, bytes) in &seeds {
         v.push(mutate_sweep(tools.clone(), name, bytes.clone(), ctx.thorough()));
-        if name == "hand-i18n" {
+        if name.starts_with("hand-i18n") {
             // the reader's locale must not matter: the same sweep in worker processes under a German locale
             let mut tw = mutate_sweep(tools.clone(), &format!("{}@de_DE", name), bytes.clone(), ctx.thorough()).with_env(&crate::sweep::LOCALE_DE);
             tw.rule = format!("{} — worker processes started with LANG / LC_ALL / LC_MESSAGES = de_DE.UTF-8, LANGUAGE = de_DE:de", tw.rule);
